@@ -125,8 +125,40 @@ func addWdrains(rng *simkit.RNG, child []Item, gated bool) []Item {
 	return out
 }
 
-// generate draws one plan.  Every choice comes from rng.
+// fittedInput draws input that surely fits into the stdin pipe of a child
+// that is not reading.
+func fittedInput(rng *simkit.RNG) []Item {
+	var out []Item
+	slots := 0
+	for k := rng.Range(0, 12); k > 0; k-- {
+		n := rng.Range(1, pipePage)
+		if rng.Chance(1, 4) {
+			n = rng.Range(pipePage+1, 5*pipePage)
+		}
+		if slots+slotsOf(n) > pipeSlots-1 {
+			break
+		}
+		slots += slotsOf(n)
+		out = append(out, Item{K: "in", N: n})
+	}
+	return out
+}
+
+// generate draws plans until one is valid (the scenario builders aim at valid
+// plans; what they miss, mostly output that could overfill a pipe's page
+// slots in front of a gate, is drawn again).  Every choice comes from rng.
 func generate(rng *simkit.RNG) []Item {
+	var items []Item
+	for attempt := 0; attempt < 100; attempt++ {
+		items = generate1(rng)
+		if pl, _ := newPlan(items); pl != nil {
+			return items
+		}
+	}
+	return items // invalid: the engine reports a harness error
+}
+
+func generate1(rng *simkit.RNG) []Item {
 	var child, input, cons []Item
 	exit := func() {
 		switch rng.Intn(4) {
@@ -319,9 +351,16 @@ func generate(rng *simkit.RNG) []Item {
 	default: // consumer waits until the input has been written completely
 		a, b := anyPair()
 		child = writes(rng, a, b)
-		child = insertAt(rng, child, Item{K: "eof"})
+		if rng.Chance(1, 2) {
+			// input that fits the stdin pipe whatever the child is doing
+			child = insertAt(rng, child, Item{K: "eof"})
+			input = fittedInput(rng)
+		} else {
+			// any input; the child reads it before it writes anything
+			child = append([]Item{{K: "eof"}}, child...)
+			input = inputChunks(rng, rng.Range(0, pipeSafe))
+		}
 		exit()
-		input = inputChunks(rng, rng.Range(0, pipeSafe))
 		if rng.Chance(1, 2) {
 			rs, _ := reads(rng, max(a+b, 1))
 			cons = append(cons, rs...)
